@@ -7,6 +7,7 @@ from .prune import is_call
 
 LEVEL = 'other'
 RULES = {
+    'C13.R11': 'the node count, the reachable set and the leaf flags the traversals and metrics read are what the arena mutators maintain, also on their failing paths (shared with C12.R2 / C12.R3)',
     'C13.R10': helpers.RULE_TEXT,
     'C13.R1': 'every TraversalMut::new builds its initial frontier from the `root` parameter',
     'C13.R2': 'frontier discipline vs child order: LIFO frontiers enqueue children in reverse label order, FIFO frontiers in forward order',
@@ -20,21 +21,8 @@ RULES = {
 }
 CONTROL_REV = '078b142'  # thorough tier: the rules must still report the defects found (and since fixed) on the original tree
 CONTROLS = [('C13.R1', 'DfsEdge::new#seed'), ('C13.R3', 'Bfs::next#n_remaining'), ('C13.R4', 'DfsPre::skip_subtree#reset'), ('C13.R4', 'DfsEdge::skip_subtree#reset'), ('C13.R4', 'Bfs::skip_subtree#reset'), ('C13.R5', 'DfsPre::skip_subtree#size_lb'), ('C13.R5', 'DfsEdge::new#size_lb'), ('C13.R5', '<PolyhedraIter_as_Iterator>::size_hint')]
-WRAPPERS = {
-    'Tree::node_indices': ('Iterator::map(self.arena, closure {closure#0}[])', ['$1.0'], 'the keys of the arena, in index order'),
-    'Tree::node_iter': ('self.arena', [], 'the (index, node) pairs of the arena, in index order'),
-    'Tree::get_root_idx': ('self.root', [], 'the stored root index'),
-    'EdgeReference::edge': ('Edge::Edge{self.source_idx, self.label, self.target_idx}', [], 'copies (source, label, target) of the edge in this order'),
-    'Tree::dfs_edge_iter': ('DfsEdge::iter(self, Tree::get_root_idx(self))', [], 'edge traversal from the root'),
-    'Tree::len': ('Slab::len(self.arena)', [], 'number of stored nodes'),
-    'AffTree::len': ('Tree::len(self.tree)', [], 'delegates to the arena tree'),
-    'AffTree::num_terminals': ('Tree::num_terminals(self.tree)', [], 'delegates to the arena tree'),
-    'AffTree::depth': ('Tree::depth(self.tree)', [], 'delegates to the arena tree'),
-    'AffTree::nodes': ('Iterator::map(Tree::nodes(self.tree), closure {closure#0}[])', ['$1.value'], 'the values of the arena tree\'s nodes'),
-    'AffTree::terminals': ('Iterator::map(Tree::terminals(self.tree), closure {closure#0}[])', ['$1.value'], 'the values of the arena tree\'s terminals'),
-    'AffTree::decisions': ('Iterator::map(Tree::decisions(self.tree), closure {closure#0}[])', ['$1.value'], 'the values of the arena tree\'s decisions'),
-}
-FLOORS = {'C13.R10': 20, 'C13.R1': 3, 'C13.R2': 3, 'C13.R3': 2, 'C13.R4': 9, 'C13.R5': 6, 'C13.R6': 10, 'C13.R7': 6, 'C13.R8': 3, 'C13.R9': 1}
+WRAPPERS = {}  # the delegating accessors are decided by case interpretation (rules/helpers.py) since the exact-rendering table proved brittle
+FLOORS = {'C13.R11': 25, 'C13.R10': 31, 'C13.R1': 3, 'C13.R2': 3, 'C13.R3': 2, 'C13.R4': 9, 'C13.R5': 6, 'C13.R6': 10, 'C13.R7': 6, 'C13.R8': 3, 'C13.R9': 1}
 EXPLANATION = 'Sibling agreement between the three traversals and pairing/ordering rules on their bookkeeping.'
 DOES_NOT_DECIDE = 'exact visiting sequences as a whole (decided through their local rules only), depth()/depth_stats aggregation, numeric tightness of size_hint'
 LIFO_POP = {'Vec::pop'}
@@ -68,6 +56,7 @@ def has_call(e, *names):
 
 def run(ctx):
     helpers.run_for(ctx)
+    helpers.share_arena_contracts(ctx, 'C13.R11', failing_paths=True)
     prune.check_wrappers(ctx, 'C13.R6', WRAPPERS)
     F = ctx.facts
     imp = impls(F)
@@ -555,9 +544,13 @@ def r5_wrappers(ctx):
     for b in F.bodies:
         if b.name == 'size_hint' and b.impl_trait_base == 'Iterator' and b.kind != 'Closure':
             n += 1
+            site = '%s' % b.qname
+            if b.qname in helpers.TABLES:
+                # decided by case interpretation: the hint is the pair of bounds the wrapped traversal keeps, however the wrapper spells it
+                helpers.check_table(ctx, 'C13.R5', b.qname, site=site)
+                continue
             R = Resolver(b)
             rets = [e for _, e in R.return_expr()]
-            site = '%s' % b.qname
             if len(rets) == 1 and rets[0][0] == 'call' and rets[0][1].endswith('::size_hint') and any(x == ('param', 'self') for x in walk(rets[0])) \
                     and not has_call(rets[0], 'Tree::len'):
                 ctx.ok('C13.R5', site, 'delegates to the progress-aware traversal: %s' % fmt(rets[0]), b.span)
@@ -671,31 +664,9 @@ def r7(ctx):
 
 def r6(ctx):
     F = ctx.facts
-    table = {'terminals': True, 'terminals_mut': True, 'terminal_indices': True, 'decisions': False, 'decision_indices': False}
-    for name, want in table.items():
-        b = ctx.body('C13.R6', 'Tree::' + name)
-        if b is None:
-            continue
-        R = Resolver(b)
-        rets = [e for _, e in R.return_expr()]
-        src, filters = prune.filter_chain(rets[0]) if rets else (None, [])
-        site = 'Tree::%s#filter' % name
-        verdict = None
-        for f in filters:
-            cb, crets = prune.closure_ret(F, f)
-            if crets and len(crets) == 1:
-                e = crets[0]
-                neg = False
-                while e[0] == 'un' and e[1] == 'Not':
-                    neg = not neg
-                    e = e[2]
-                if e[0] == 'field' and e[2] == 'isleaf':
-                    verdict = (not neg) == want
-        arena = src is not None and any(isinstance(x, tuple) and x[:1] == ('field',) and x[2] == 'arena' for x in walk(src))
-        if verdict and arena:
-            ctx.ok('C13.R6', site, 'arena entries filtered by %sisleaf' % ('' if want else '!'), b.span)
-        else:
-            ctx.bad('C13.R6', site, 'iterator does not select %s by the leaf flag of every stored node' % ('terminals' if want else 'decisions'), b.span)
+    # which stored nodes the index-order iterators select, and what they hand out for each: decided per element (rules/helpers.py)
+    for name in ('terminals', 'terminals_mut', 'terminal_indices', 'decisions', 'decision_indices'):
+        helpers.check_pipe(ctx, 'C13.R6', 'Tree::' + name, site='Tree::%s#filter' % name)
     for name, inner in (('num_terminals', 'Tree::terminal_indices'), ('num_nodes', 'DfsPre::iter')):
         b = ctx.body('C13.R6', 'Tree::' + name)
         if b is None:
